@@ -1028,8 +1028,9 @@ leading_label(const struct fmt *f, char *buf, size_t bsz)
  * (incl. formats of such fields only), or the format starts with a month/weekday name directly followed by a
  * literal (names have needle classes of their own), or fixed-width numeric fields followed by name fields
  * (%d%b%Y, %Y%m%d%_a: whole-line values that parse as argument).  Runs with Roman numerals, variable-width,
- * blank-padded or suffixed fields in front of the first literal are outside (skipped, counted).  %s in front:
- * only a silently different value is judged. */
+ * or suffixed fields in front of the first literal are outside (skipped, counted); blank-padded fields behind a
+ * fixed-width first field and %db/%dB directly followed by a literal are inside.  %s or a Roman numeral in
+ * front: only a silently different value is judged. */
 static int
 stdin_in_scope(const struct fmt *f)
 {
@@ -1044,10 +1045,21 @@ stdin_in_scope(const struct fmt *f)
 			/* epoch seconds: variable width, so a refused line is not judged, a silently different value is */
 			return 2;
 		}
+		if (i == 0 && s->c[p[0]] == C_db && *sep) {
+			/* %db / %dB: two digits and the suffix letter, then a literal */
+			return 1;
+		}
+		if (i == 0 && w == W_ROMAN && *sep) {
+			/* a Roman numeral is not fixed-width: a refused line is not judged, a silently different value is */
+			return 2;
+		}
 		if (w == W_NAME && i == 0 && *sep) {
 			return 1;
 		} else if ((w == W_NAME || w == W_ONE) && i > 0) {
 			/* a name behind fixed-width fields (29Feb2024, 20240229R): works as argument, whole-line value */
+			names++;
+		} else if (w == W_SPC && i > 0) {
+			/* blank-padded fields in a run that starts with a fixed-width field (2012 3 1 under %Y% m% d) */
 			names++;
 		} else if (w != W_FIX) {
 			return 0;
@@ -1135,6 +1147,10 @@ name_in_run(const struct fmt *f, char *buf, size_t bsz)
 	for (int i = 0; i < s->n; i++) {
 		const struct spelling *spl = &spellings[s->c[p[i]]][f->sp[p[i]]];
 		const char *sep = i + 1 < s->n ? (is_time_set(f->set) ? tseps[f->sep[i]] : dseps[f->sep[i]]) : "";
+		if (i > 0 && spl->w == W_SPC) {
+			snprintf(buf, bsz, "<fixed-width run with a blank-padded field %s%s>", spl->spec, *sep ? "" : ", no literal behind it");
+			return 1;
+		}
 		if (i > 0 && (spl->w == W_NAME || spl->w == W_ONE)) {
 			const char *prev = spellings[s->c[p[i - 1]]][f->sp[p[i - 1]]].spec;
 			const char *wd = !strcmp(prev, "%Y") || !strcmp(prev, "%G") ? "4-digit" : !strcmp(prev, "%j") || !strcmp(prev, "%D") ? "3-digit" :
@@ -1300,7 +1316,8 @@ run_stdin_binding(int set, uint64_t idx, int only_v, int only_shape)
 				}
 				leading_label(&fmin[shape][kind], lead, sizeof(lead));
 				fmt_render(&fmin[shape][kind], fmins, sizeof(fmins));
-				if (name_in_run(&fmin[shape][kind], lead, sizeof(lead))) {
+				if (name_in_run(&fmin[shape][kind], lead, sizeof(lead)) || scope == 2) {
+					/* (variable-width first field: the class is the field and the literal behind it) */
 					fmins[0] = '\0';
 				}
 				snprintf(key, sizeof(key), "stdin-binding leading=%s%s%s%s line=%s: %s", lead, fmins[0] ? " (minimal failing format '" : "", fmins, fmins[0] ? "')" : "",
@@ -1339,6 +1356,14 @@ main(int argc, char *argv[])
 	ex_init(argc, argv);
 	rc_selfcheck();
 	load_locales();
+	{
+		/* an assertion of the library (abort) is an observation of the guarded call, no timer needed */
+		struct sigaction sa;
+		memset(&sa, 0, sizeof(sa));
+		sa.sa_handler = ex_wd_fatal;
+		sa.sa_flags = SA_NODEFER;
+		sigaction(SIGABRT, &sa, NULL);
+	}
 
 	if (ex.cas) {
 		int set, rd, sec, k, li, a;
@@ -1360,6 +1385,11 @@ main(int argc, char *argv[])
 		} else if (sscanf(ex.cas, "E %d %d %d %d", &k, &rd, &sec, &a) == 4 && k >= 0 && k < NEFMT && rd >= 0 && rd < RC_NDAYS) {
 			const struct rc_day *p = rc_get(rd);
 			run_epoch_ns(k, p->y, p->y, rd, sec, a);
+		} else if (sscanf(ex.cas, "Y %d %d %d", &k, &rd, &sec) == 3 && k >= 0 && k < NSXFMT) {
+			run_stdin_extra(k, rd, sec);
+		} else if (sscanf(ex.cas, "Q %d %d", &rd, &k) == 2 && rd >= 0 && rd < RC_NDAYS) {
+			const struct rc_day *p = rc_get(rd);
+			run_bizda_before(p->y, p->y, rd, k);
 		} else if (sscanf(ex.cas, "S %d %llu %d %d", &set, &idx, &rd, &sec) == 4 && set >= 0 && set < NDSETS && idx < set_size(set)) {
 			run_stdin_binding(set, idx, rd, sec);
 		} else if (sscanf(ex.cas, "B %d %llu %d", &set, &idx, &rd) == 3 && set >= 0 && set < NDSETS && idx < set_size(set) && rd >= 0 && rd < RC_NDAYS) {
@@ -1393,6 +1423,9 @@ main(int argc, char *argv[])
 			"throughout, all days of the windows; N: -f jdn|julian|ldn|lilian|mdn|matlab then -i the same name, dates and date-times (7 times on every day of the windows, every second of "
 			"2012-03-04); E: %%s, %%s%%N, %%s.%%N, %%s %%N on date-times with 0 and 123 ns (parsed second, and printing the parsed value again gives the same text); "
 			"the documented spelling 00 of Sunday for %%w in every enumerated format that has %%w, every Sunday of the windows", NREXTRA);
+		ex_meta("stdin_extra", "%d formats outside the grammar through the stream mode of dconv: %%T or %%F directly behind another specifier, %%s followed by a literal (years 2000, 1900, 1601, "
+			"1640, 4090: negative 10- and 11-digit epochs; only a different value is judged), calendar names as -i with date-time lines; every business day held as bizda before "
+			"ultimo (NNB) printed with the default format, %%F, ymd, ywd, '%%Y-%%m-%%d %%a', bizda, '%%Y-%%m-%%dB' must name its day", NSXFMT);
 		ex_meta("stdin_binding", "the dconv binary in plain stream mode (needle search), one process per format, lines = the formatted text of every day of 2000 (business days for bizda) "
 			"resp. 360/120 boundary seconds of a day, alone and embedded as 'foo <text> bar'; per-line result reconstructed from stdout + the refused lines named on stderr; "
 			"expected = library-level dt_strpdt(text,F); formats: %s", ex.thorough ? "every format in scope" :
@@ -1494,6 +1527,21 @@ main(int argc, char *argv[])
 				if (ex_mine(slice) && !ex_expired()) {
 					run_binding(s, i, bk);
 				}
+			}
+		}
+	}
+	/* stdin legs beyond the grammar, bizda-before-ultimo values */
+	for (int k = 0; k < NSXFMT && !ex_expired(); k++, slice++) {
+		if (ex_mine(slice)) {
+			run_stdin_extra(k, -1, -1);
+			++*c_traces;
+		}
+	}
+	for (int w = 0; w < (ex.thorough ? 4 : 1); w++) {
+		for (int y = W8[w].y0; y <= W8[w].y1 && !ex_expired(); y++, slice++) {
+			if (ex_mine(slice)) {
+				run_bizda_before(y, y, -1, -1);
+				++*c_traces;
 			}
 		}
 	}
